@@ -129,13 +129,15 @@ def utf8Valid : List UInt8 → Bool
     byte that `decode_nibble` rejects) -/
 def unescapeName : List UInt8 → Out (List UInt8)
   | [] => .ok []
-  | 35 :: hi :: lo :: rest =>
-    match decodeNibble lo, decodeNibble hi with
-    | some l, some h => (unescapeName rest).bind fun r => .ok ((l ||| (h <<< 4)) :: r)
-    | _, _ => .err
-  | [35] => .err
-  | [35, _] => .err
-  | b :: rest => (unescapeName rest).bind fun r => .ok (b :: r)
+  | b :: rest =>
+    if b == 35 then
+      match rest with
+      | hi :: lo :: rest' =>
+        match decodeNibble lo, decodeNibble hi with
+        | some l, some h => (unescapeName rest').bind fun r => .ok ((l ||| (h <<< 4)) :: r)
+        | _, _ => .err
+      | _ => .err
+    else (unescapeName rest).bind fun r => .ok (b :: r)
 
 /-- `decode_name(rest)`: the name's bytes; `Err` when they are not UTF-8 -/
 def decodeName (t : List UInt8) : Out (List UInt8) :=
